@@ -6,6 +6,11 @@ def key_of_display(t):
     t = t.strip()
     if len(t) >= 2 and t[0] == '"' and t[-1] == '"':
         return {"s": t[1:-1]}
+    if len(t) >= 2 and t[0] == '"' and t.rfind('"') > 0:
+        # context appended after the quoted key ("k" (in file ...)): the key ends at the last quote
+        return {"s": t[1:t.rfind('"')]}
+    if re.match(r"^(true|false|Null|-?\d+)\s+\S", t):
+        t = t.split()[0]
     if t == "true":
         return True
     if t == "false":
